@@ -80,10 +80,15 @@ def realToDatum : RealLit → Datum
   | .rat n d => normRat n d
   | r => .flo r
 
+/-- `SteelComplex::into_steelval`: an exact-zero imaginary part gives the real part.  (An inexact
+    imaginary part that *evaluates* to zero does too; floats are not evaluated here, the
+    orchestrator treats `other complex` as "some number".) -/
 def numToDatum : NumLit → Datum
   | .real r => realToDatum r
-  | .complex re (.int 0) => realToDatum re
-  | .complex _ _ => .other t!"complex"
+  | .complex re im =>
+    match realToDatum im with
+    | .int 0 => realToDatum re
+    | _ => .other t!"complex"
   | .polar _ _ => .other t!"polar"
 
 def kwName : Kw → Text
